@@ -612,6 +612,23 @@ func c17R3(c *Ctx, r *Report) {
 		return true
 	})
 	if sw == nil {
+		// a table lookup instead of a switch: presence must be tested (comma-ok) or unsupported types reach hash 0
+		if fn := c.ssaFunc("DNSKEY.ToDS"); fn != nil {
+			unchecked := ""
+			allInstrs(fn, func(in ssa.Instruction) {
+				lk, ok := in.(*ssa.Lookup)
+				if !ok {
+					return
+				}
+				if _, isMap := lk.X.Type().Underlying().(*types.Map); isMap && !lk.CommaOk {
+					unchecked = c.pos(lk.Pos())
+				}
+			})
+			if unchecked != "" {
+				r.fail("C17.R3.digest-table", "DNSKEY.ToDS", unchecked, "the digest type is looked up in a table without testing that it is there: an unsupported digest type (0, 3, 6 ...) yields hash 0 and ToDS panics (crypto: requested hash function #0 is unavailable) instead of returning nil")
+				return
+			}
+		}
 		r.undecided("C17.R3.digest-table", "DNSKEY.ToDS", c.pos(fd.Pos()), "no switch over the digest type parameter")
 		return
 	}
